@@ -678,6 +678,7 @@ func (v *Protocol) readBasicHeader() (format formatType, cid chunkID, err error)
 	if cid > 1 {
 		return
 	}
+	marker := cid
 
 	// 64-319, 2B chunk header
 	if err = binary.Read(v.r, binary.BigEndian, &t); err != nil {
@@ -686,7 +687,7 @@ func (v *Protocol) readBasicHeader() (format formatType, cid chunkID, err error)
 	cid = chunkID(64 + uint32(t))
 
 	// 64-65599, 3B chunk header
-	if cid == 1 {
+	if marker == 1 {
 		if err = binary.Read(v.r, binary.BigEndian, &t); err != nil {
 			return format, cid, oe.Wrapf(err, "read basic header for cid=%v", cid)
 		}
